@@ -292,6 +292,11 @@ class Kinds(QualInfer):
 
     def special_call(self, gen, c, args):
         f = c.func
+        if isinstance(f, ast.Attribute) and f.attr == "normalize" and dotted(f.value) == "unicodedata" and len(args) == 3:
+            # (args = receiver, form, string)  a string rewritten into another string of the same kind: distinct names / paths can become equal
+            n = args[2] if args[2] is not None else self.new("`%s`" % unparse(c)[:40])
+            self.parses.append((gen.fi, c, n, "normalize"))
+            return True, n
         if isinstance(f, ast.Name) and f.id == "str" and len(args) == 1 and args[0] is not None and f.id not in gen.scope \
                 and self.prog.resolve_name(gen.fi.module, f.id) is None:
             res = self.new("`%s`" % unparse(c)[:40])
